@@ -45,6 +45,16 @@ Example f1_recovered :
   /\ seteq pair_eqb (d_rep (dk s)) (d_rep (dk (run sc_commit (rr sc_commit 30)))) = true.
 Proof. repeat split; vm_compute; reflexivity. Qed.
 
+(* non-vacuity of C13_resolved_contract_recovered: its hypotheses hold in the
+   window state (before the stop) and its conclusion is the recovery *)
+Example f1_window_hyps :
+  let h := repeat M 16 ++ [R 900; R 900] in
+  find_spec sc_commit 900 = Some (mkSpec 900 [mkStage [] (Some (900, 0))])
+  /\ d_full (dk (run sc_commit h)) = false /\ d_state (dk (run sc_commit h)) = SWaiting
+  /\ d_con (dk (run sc_commit h)) 900 = Some 1%nat
+  /\ d_con (dk (run sc_commit (h ++ [ECrash; M; R 900]))) 900 = None.
+Proof. repeat split; vm_compute; reflexivity. Qed.
+
 (* ---- F2: remote (pending) close, dust fail-back + dangling htlc ---- *)
 Definition sc_dust : scen :=
   mkScen KRemote false false false true [2] [6] [] [mkSpec 900 [mkStage [] (Some (900, 0))]].
